@@ -401,12 +401,14 @@ func runHarness(L *Loaded, o RunOpts, h *HarnessCfg, fn *ssa.Function) (*harness
 					pending += len(l.items)
 					l.mu.Unlock()
 				}
+				PrintForkStat(false)
 				fmt.Fprintf(os.Stderr, "  ... %s: %d paths started, %d queued, %.0fs\n", h.Func, atomic.LoadInt64(&progressPaths), pending, time.Since(start).Seconds())
 			}
 		}
 	}()
 	wg.Wait()
 	close(stopTick)
+	PrintForkStat(true)
 	atomic.StoreInt64(&progressPaths, 0)
 	jr.Wall = time.Since(start)
 	rep := &harnessReport{Name: h.Pkg + "." + h.Func, About: h.About, Cases: cases, Paths: jr.Paths, Completed: jr.Completed,
